@@ -84,6 +84,8 @@ def _injective_key(key: ast.AST, lvars: set[str], rebinds: dict[str, list]) -> t
     def inj(e) -> bool:
         if isinstance(e, ast.Name):
             return True
+        if not ({x.id for x in ast.walk(e) if isinstance(x, ast.Name)} & lvars):
+            return True  # does not depend on the iterated element: a constant factor of the key
         if isinstance(e, ast.Constant):
             return True
         if isinstance(e, ast.Call) and isinstance(e.func, ast.Name) and e.func.id in INJECTIVE_WRAPPERS and len(e.args) == 1 and not e.keywords:
@@ -250,6 +252,43 @@ def check_function(ctx, res: Result, fi: FuncInfo, exceptions=None, rule="G-mass
                     why += f"; exception-table precondition no longer holds: {bad}"
         if not handled:
             res.bad(rule, inst, fi.site(st), fi.qualname, why, construct=src(st)[:200])
+    # dictionary comprehensions are stores too: two elements with the same key keep only the last value
+    for dc in walk_no_nested(fi.node):
+        if not isinstance(dc, ast.DictComp):
+            continue
+        lvars = {x.id for g in dc.generators for x in ast.walk(g.target) if isinstance(x, ast.Name)}
+        if not lvars:
+            continue
+        counters = set()
+        for g in dc.generators:
+            if isinstance(g.iter, ast.Call) and isinstance(g.iter.func, ast.Name):
+                if g.iter.func.id == "range" and isinstance(g.target, ast.Name):
+                    counters.add(g.target.id)
+                if g.iter.func.id == "enumerate" and isinstance(g.target, ast.Tuple) and isinstance(g.target.elts[0], ast.Name):
+                    counters.add(g.target.elts[0].id)
+        vnames = {x.id for x in ast.walk(dc.value) if isinstance(x, ast.Name)} & lvars
+        if vnames <= counters:
+            continue  # value is a position / constant: a lookup table, not a weight map
+        n += 1
+        holder = par.get(dc)
+        dname = src(holder.targets[0]) if isinstance(holder, ast.Assign) and len(holder.targets) == 1 else (src(holder.target) if isinstance(holder, ast.AnnAssign) else "<dict>")
+        inst = f"{fi.qualname}:{dname}[{src(dc.key)[:40]}] (comprehension)"
+        ok, why = _injective_key(dc.key, lvars, {})
+        if ok:
+            res.ok(rule, inst, fi.site(dc), fi.qualname, "b:injective-rekey (comprehension)")
+            continue
+        syn = ast.Assign(targets=[ast.Subscript(value=ast.Name(id=dname, ctx=ast.Load()), slice=dc.key, ctx=ast.Store())], value=dc.value, lineno=dc.lineno)
+        handled = False
+        for key, (reason, pre) in exceptions.items():
+            if key in src(syn):
+                bad = pre(ctx, fi, syn, par)
+                if bad is None:
+                    res.ok(rule, inst + ":exception", fi.site(dc), fi.qualname, f"accepted by exception table: {reason}")
+                    handled = True
+                else:
+                    why += f"; exception-table precondition no longer holds: {bad}"
+        if not handled:
+            res.bad(rule, inst, fi.site(dc), fi.qualname, why + ": in a dictionary comprehension elements with the same key overwrite each other, their weights are not summed", construct=src(dc)[:200])
     return n
 
 
@@ -279,3 +318,51 @@ def g2_remainder_guard(ctx, res: Result, fi: FuncInfo, par=None) -> int:
             res.add(guarded, "G2-remainder-positive", f"{fi.qualname}:{src(tgt)[:40]}", fi.site(st), fi.qualname, f"remainder 1 - {tot} is stored only when {tot} < 1",
                     f"remainder `1 - {tot}` is stored without the guard `{tot} < 1`: a negative probability can enter the distribution", construct=src(st)[:200])
     return n
+
+
+def renormalise_kept(ctx, res: Result, fi: FuncInfo, rule: str, inst: str, ok_msg: str, bad_prefix: str) -> None:
+    """Weights are divided by the sum of exactly the dictionary they are taken from: `p / sum(D.values())` with p a
+    value of D (loop or comprehension over D.items()).  Searched in fi and the private helpers of its class it calls."""
+    from ..inline import inlined
+
+    todo, seen = [fi], []
+    while todo:
+        f_ = todo.pop()
+        if any(f_ is x for x in seen):
+            continue
+        seen.append(f_)
+        if f_.cls is not None:
+            for c in walk_no_nested(f_.node):
+                if isinstance(c, ast.Call) and isinstance(c.func, ast.Attribute) and src(c.func.value) in ("self", f_.cls.name) and c.func.attr in f_.cls.methods and c.func.attr.startswith("_"):
+                    todo.append(f_.cls.methods[c.func.attr])
+    verdict, why, any_div = None, "", False
+    for f_ in seen:
+        fn = inlined(f_.node)
+        par = {c: n_ for n_ in ast.walk(fn) for c in ast.iter_child_nodes(n_)}
+        for d in [d for d in ast.walk(fn) if isinstance(d, ast.BinOp) and isinstance(d.op, ast.Div)]:
+            r = d.right
+            if isinstance(r, ast.Name):
+                ds = [a.value for a in ast.walk(fn) if isinstance(a, ast.Assign) and len(a.targets) == 1 and src(a.targets[0]) == r.id]
+                if len(ds) == 1:
+                    r = ds[0]
+            if not (isinstance(r, ast.Call) and src(r.func) == "sum" and len(r.args) == 1 and isinstance(r.args[0], ast.Call) and isinstance(r.args[0].func, ast.Attribute) and r.args[0].func.attr == "values"):
+                continue
+            any_div = True
+            dname = src(r.args[0].func.value)
+            x, iters = d, []
+            while x is not None and x is not fn:
+                x = par.get(x)
+                if isinstance(x, ast.For):
+                    iters.append((x.target, x.iter))
+                elif isinstance(x, (ast.DictComp, ast.ListComp, ast.GeneratorExp)):
+                    iters += [(g.target, g.iter) for g in x.generators]
+            same = [tg for tg, it in iters if src(it) == f"{dname}.items()" and isinstance(tg, ast.Tuple) and len(tg.elts) == 2 and src(tg.elts[1]) == src(d.left)]
+            other = [it for tg, it in iters if src(it).endswith(".items()") and src(it) != f"{dname}.items()"]
+            if same:
+                verdict = True
+            elif other and verdict is None:
+                verdict, why = False, f"weights of `{src(other[0])}` are divided by the sum of `{dname}`"
+    if verdict is None:
+        res.frozen(False, rule, inst, fi.site(), fi.qualname, "", "renormalisation idiom (p / sum(kept.values()) over kept.items()) not recognised", construct="renormalise")
+    else:
+        res.add(verdict, rule, inst, fi.site(), fi.qualname, ok_msg, f"{bad_prefix}: {why}", construct="renormalise")
